@@ -9,7 +9,7 @@ table = subprocess.run(['python3', '/verif/tools/seeded_table.py'], capture_outp
 summary = table.stderr.strip().splitlines()[-1]
 text = '''### 12.7 Seeded changes (independent sub-agents, property text only) and which check catches which
 
-Seven rounds, 260 changes (thirteen per property; round 7 asked for one change per property), each written by a fresh sub-agent that was given only the
+Seven rounds, 260 changes (thirteen per property; round 7 asked for one change per property) and a targeted mini-round of 4 (C01/C05, aimed at the validators newly under contract), each written by a fresh sub-agent that was given only the
 property's entry of `properties.jsonl` and its own scratch worktree of /repo (nothing from /verif), each
 confirmed by me (`git apply` on a clean checkout; the demo passes without and fails with the change; the
 477 tests still pass; `git checkout -- .`): `seeded/<id>/{patch.diff, demo.py, meta.json, result.json,
@@ -70,6 +70,15 @@ What each round found, on its FIRST run against the machinery as it stood, and w
   already holds an older configuration, to the same destination after someone else overwrote / truncated / deleted /
   replaced it, after edits.
 
+* **Mini-round 8 (`C01_14`, `C01_15`, `C05_14`, `C05_15`; the agents were pointed at the net / file / url field classes, which session 3
+  brought under contract): 3/4.**  C01_15 (prefix bounds skipped for a bare address) and C05_15 (`abspath` → `normpath`) fail named
+  obligations of the new contracts and the drivers; C05_14 (`max_prefix_len or net.max_prefixlen`) first left the subset (unknown
+  attribute `max_prefixlen`; the driver caught it) → the attribute is modelled and the change now also fails
+  `IPv4NetworkField._validate/post:C05+C01.prefix-length-within-bounds`.  Miss: C01_14 (the NetBIOS pattern's length bound `{1,15}` →
+  `{1,16}`): regular expressions are uninterpreted in the proofs, so only a driver can see it, and the C01 driver's pool had no
+  NetBIOS-only name at the boundary (the C05 driver's pool has, and catches it) → names of length 1, 15 and 16 made of NetBIOS-only
+  characters in the C01 pool.
+
 An *undecided* outcome (exit 2: a changed function left the verifier's subset and the bounded driver saw
 nothing) is counted as a miss.
 
@@ -99,7 +108,7 @@ constraints.  One assumption had to be stated for `FilenameField`: `transform_st
 union-typed attributes are not assumed on read, and without it the solver chose the tuple allocated for the error message as the strip
 option (found as a spurious `sat`, corrected in the contract, not in the code).
 
-Probes on a scratch copy (`tools/mut.sh`, each must fail a named obligation and did): `<` → `<=` in the minimum prefix check; `is not None`
+Probes on a scratch copy (`tools/mut.sh`, each must fail a named obligation and did; the independent changes of mini-round 8, §12.7, are the real test): `<` → `<=` in the minimum prefix check; `is not None`
 → truthiness for `max_prefix_len` (the pinned tree's original defect); `return value` instead of `str(net)`; parser error swallowed;
 `and` → `or` in the host-name shape test; `allow_ipv4` ignored; resolved name dropped; address not canonicalised; resolution failure
 swallowed; scheme test weakened; result lower-cased; `isdir` → `exists`; `exists is False` → falsiness; `startdir` applied to absolute
